@@ -159,6 +159,14 @@ func (self *mmLexInfo) Error(e string) {
 	}
 }
 
+// fail records an error found by a grammar action in an otherwise
+// syntactically valid input.  The action returns the result from the parser,
+// so that the error is reported at the current location.
+func (self *mmLexInfo) fail(e string) int {
+	self.err = e
+	return 1
+}
+
 func init() {
 	// There does not seem to be a way to make goyacc not initialize this to false.
 	mmErrorVerbose = true
